@@ -11,8 +11,8 @@
 EXTENDS Clauses, Json, IOUtils
 
 Traces == JsonDeserialize(IOEnv.VERIF_IN)
-VARIABLES tid, l, heap, env, applied, fails, nobs
-vars == <<tid, l, heap, env, applied, fails, nobs>>
+VARIABLES tid, l, heap, env, applied, flats, fails, nobs
+vars == <<tid, l, heap, env, applied, flats, fails, nobs>>
 
 Clean(L) == [k |-> L.k, ref |-> L.ref, refs |-> L.refs, rt |-> L.rt]
 F(clause, obj, info) == [clause |-> clause, obj |-> obj, info |-> ToString(info)]
@@ -35,13 +35,26 @@ AddOpEv(e) ==
                     \cup When(e.ret_same /\ e.last_same, Fail("C02.return", e.id, <<e.ret_same, e.last_same>>))
   IN /\ heap' = IF known THEN DoAddOp(heap, e.c, e.id, rec, after) ELSE heap
      /\ fails' = fails \cup Tag(cl)
-     /\ UNCHANGED <<env, applied, nobs>>
+     /\ UNCHANGED <<env, applied, flats, nobs>>
 
 \* ----------------------------------------------------------------- AddSub
 CmapFn(cm, src, new) ==
   LET ok == {j \in 1..Len(cm) : cm[j][2] \in src /\ cm[j][1] \in new} IN
   [i \in {cm[j][2] : j \in ok} |-> cm[CHOOSE j \in ok : cm[j][2] = i][1]]
 MapOK(f, src, new) == DOMAIN f = src /\ {f[i] : i \in DOMAIN f} = new /\ \A a, b \in DOMAIN f : a # b => f[a] # f[b]
+
+\* C05: the copy is faithful -- attributes, repetition terms and relations (re-pointed to the copied operations) as
+\* reported by the new objects right after the copy, compared with the specification's source objects
+IsoClauses(e, f, root) ==
+  UNION {LET n == f[i]  r == e.recs[n]  src == heap[i] IN
+         (IF src.t = "op"
+          THEN When(r.t = "op" /\ r.kind = src.kind /\ r.qs = src.qs /\ r.chans = src.chans /\ r.dur = src.dur /\ r.tag = src.tag /\ r.extra = src.extra,
+                    Fail("C05.iso.attrs", n, <<"copy", r, "source", i, src.kind, src.qs, src.chans, src.dur, src.tag, src.extra>>))
+          ELSE When(r.t = "comp" /\ r.rep = src.rep, Fail("C05.iso.rep", n, <<"copy", r, "source", src.rep>>)))
+         \cup (IF i = root THEN {}
+               ELSE When(Clean(e.links[n]) = MapLink(src.link, f),
+                         Fail("C05.iso.link", n, <<"copy reports", Clean(e.links[n]), "source", i, src.link, "expected", MapLink(src.link, f)>>)))
+         : i \in DOMAIN f}
 
 AddSubEv(e) ==
   LET known == e.c \in DOMAIN heap /\ e.s \in DOMAIN heap
@@ -52,6 +65,7 @@ AddSubEv(e) ==
       given == IF known THEN heap[e.s].link ELSE NoLink
       after == Clean(e.after)
       cl    == (IF e.how = "add" THEN When(ok, Fail("C05.map", e.id, <<"sources", src, "copied", DOMAIN f, "nested", new>>)) ELSE {})
+               \cup (IF e.how = "add" /\ ok THEN IsoClauses(e, f, e.s) ELSE {})
                \cup (IF ~known THEN {}
                      ELSE IF GivenIsValid(heap, e.c, given)
                           THEN When(after = given, Fail("C01.given.sub", e.id, <<"given", given, "reported", after>>))
@@ -64,7 +78,7 @@ AddSubEv(e) ==
                 THEN AppendKid([heap EXCEPT ![e.s].home = e.c, ![e.s].link = after], e.c, e.s)
                 ELSE IF ok THEN DoAddSub(heap, e.c, e.s, f, after) ELSE heap
      /\ fails' = fails \cup Tag(cl)
-     /\ UNCHANGED <<env, applied, nobs>>
+     /\ UNCHANGED <<env, applied, flats, nobs>>
 
 CopyCircEv(e) ==
   LET known == e.s \in DOMAIN heap
@@ -73,9 +87,10 @@ CopyCircEv(e) ==
       f     == CmapFn(e.cmap, src, new)
       ok    == known /\ MapOK(f, src, new)
   IN /\ heap' = IF ok THEN DoCopyCirc(heap, e.s, f) ELSE heap
-     /\ fails' = fails \cup Tag(When(ok, Fail("C05.map", e.id, <<"sources", src, "copied", DOMAIN f, "new", new>>)))
+     /\ fails' = fails \cup Tag(When(ok, Fail("C05.map", e.id, <<"sources", src, "copied", DOMAIN f, "new", new>>))
+                               \cup (IF ok THEN IsoClauses(e, f, "") ELSE {}))
      /\ applied' = IF e.s \in applied THEN applied \cup {e.id} ELSE applied
-     /\ UNCHANGED <<env, nobs>>
+     /\ UNCHANGED <<env, flats, nobs>>
 
 \* ------------------------------------------------------------------ Apply
 ApplyEv(e) ==
@@ -139,7 +154,7 @@ ApplyEv(e) ==
   IN /\ heap' = IF wellformedNew THEN H2 ELSE heap
      /\ fails' = fails \cup Tag(cl)
      /\ applied' = applied \cup {c}
-     /\ UNCHANGED <<env, nobs>>
+     /\ UNCHANGED <<env, flats, nobs>>
 
 \* ---------------------------------------------------------------- Flatten
 FlattenEv(e) ==
@@ -153,6 +168,10 @@ FlattenEv(e) ==
                  Fail("C11.multiset", c, <<"lost", leaves \ got, "extra", got \ leaves, "entries", Len(tree[c].kids)>>))
             \cup When(\A i \in DOMAIN tree : i = c \/ tree[i].t = "op", Fail("C11.nocomposite", c, <<>>))
             \cup When(e.same_structure, Fail("C11.inplace", c, <<>>))
+            \cup (IF c \in flats
+                  THEN When(tree[c].kids = H[c].kids /\ \A i \in got \cap leaves : Clean(e.links[i]) = H[i].link,
+                            Fail("C11.idempotent", c, <<"second flatten changed the circuit">>))
+                  ELSE {})
       ok == got \subseteq leaves
       H2 == [i \in (DOMAIN H \ pre) \cup {c} \cup got |->
                IF i = c THEN [H[c] EXCEPT !.kids = tree[c].kids]
@@ -160,34 +179,35 @@ FlattenEv(e) ==
                ELSE H[i]]
   IN /\ heap' = IF ok THEN H2 ELSE heap
      /\ fails' = fails \cup Tag(cl)
+     /\ flats' = flats \cup {c}
      /\ UNCHANGED <<env, applied, nobs>>
 
 \* -------------------------------------------------------------------- Obs
 ObsEv(e) ==
   LET known == e.c \in DOMAIN heap
-      cl == IF known THEN ObsClausesMarked(heap, env, e.c, e.snap, e.c \in applied) ELSE {Fail("C02.unknown_circuit", e.c, <<>>)}
+      cl == IF known THEN ObsClausesMarked(heap, env, e.c, e.snap, [applied |-> e.c \in applied, implicit |-> e.implicit]) ELSE {Fail("C02.unknown_circuit", e.c, <<>>)}
   IN /\ fails' = fails \cup Tag(cl)
      /\ nobs' = nobs + 1
-     /\ UNCHANGED <<heap, env, applied>>
+     /\ UNCHANGED <<heap, env, applied, flats>>
 
 EnvEv(e) ==
   /\ env' = CASE e.ev = "SetDur" -> [env EXCEPT !.dreg = Append(@, <<e.key, e.val>>)]
               [] e.ev = "SetRep" -> [env EXCEPT !.rreg = Append(@, <<e.key, e.val>>)]
               [] e.ev = "Enter"  -> [env EXCEPT !.glob = Append(@, e.cfg)]
               [] e.ev = "Leave"  -> [env EXCEPT !.glob = SubSeq(@, 1, Len(@) - 1)]
-  /\ UNCHANGED <<heap, applied, fails, nobs>>
+  /\ UNCHANGED <<heap, applied, flats, fails, nobs>>
 
 ErrorEv(e) ==
   /\ fails' = fails \cup Tag({Fail("C00.exception", e.a, <<e.exc, e.msg>>)})
-  /\ UNCHANGED <<heap, env, applied, nobs>>
+  /\ UNCHANGED <<heap, env, applied, flats, nobs>>
 
-Init == tid = 1 /\ l = 1 /\ heap = <<>> /\ env = InitEnv /\ applied = {} /\ fails = {} /\ nobs = 0
+Init == tid = 1 /\ l = 1 /\ heap = <<>> /\ env = InitEnv /\ applied = {} /\ flats = {} /\ fails = {} /\ nobs = 0
 
 Step ==
   /\ tid <= Len(Traces) /\ l <= Len(Traces[tid])
   /\ LET e == Traces[tid][l] IN
        CASE e.ev = "NewCircuit" -> /\ heap' = DoNewCircuit(heap, e.c, Clean(e.link), e.rep)
-                                   /\ UNCHANGED <<env, applied, fails, nobs>>
+                                   /\ UNCHANGED <<env, applied, flats, fails, nobs>>
          [] e.ev = "AddOp"    -> AddOpEv(e)
          [] e.ev = "AddSub"   -> AddSubEv(e)
          [] e.ev = "CopyCirc" -> CopyCircEv(e)
@@ -196,18 +216,18 @@ Step ==
          [] e.ev = "Obs"      -> ObsEv(e)
          [] e.ev \in {"SetDur", "SetRep", "Enter", "Leave"} -> EnvEv(e)
          [] e.ev = "Error"    -> ErrorEv(e)
-         [] OTHER -> /\ fails' = fails \cup Tag({Fail("C00.unknown_event", e.ev, <<>>)}) /\ UNCHANGED <<heap, env, applied, nobs>>
+         [] OTHER -> /\ fails' = fails \cup Tag({Fail("C00.unknown_event", e.ev, <<>>)}) /\ UNCHANGED <<heap, env, applied, flats, nobs>>
   /\ l' = l + 1 /\ tid' = tid
 
 NextTrace ==
   /\ tid <= Len(Traces) /\ l = Len(Traces[tid]) + 1
-  /\ tid' = tid + 1 /\ l' = 1 /\ heap' = <<>> /\ env' = InitEnv /\ applied' = {}
+  /\ tid' = tid + 1 /\ l' = 1 /\ heap' = <<>> /\ env' = InitEnv /\ applied' = {} /\ flats' = {}
   /\ UNCHANGED <<fails, nobs>>
 
 Done ==
   /\ tid = Len(Traces) + 1 /\ l = 1
   /\ JsonSerialize(IOEnv.VERIF_OUT, [traces |-> Len(Traces), nobs |-> nobs, fails |-> SetToSeq(fails)])
-  /\ l' = 2 /\ UNCHANGED <<tid, heap, env, applied, fails, nobs>>
+  /\ l' = 2 /\ UNCHANGED <<tid, heap, env, applied, flats, fails, nobs>>
 
 Next == Step \/ NextTrace \/ Done
 Spec == Init /\ [][Next]_vars
